@@ -15,10 +15,15 @@
 (*   validate  the unspents the transaction holds at that moment, a database,*)
 (*             and whether validate_unspents returned (with which fee)       *)
 (*   conv      a conversion call: direction, unit, satoshi digits, text      *)
-(*   set / assign / fromdb / append / replace   the object is edited         *)
-(*             (TxSession.tla's writers), with whether the call raised       *)
+(*   set / assign / fromdb / append / replace / remove_in / append_in        *)
+(*             the object is edited (TxSession.tla's writers), with whether   *)
+(*             the call raised                                               *)
 (*   tin / tout / fee                           total_in(), total_out(),     *)
-(*             fee() of the long-lived object                                *)
+(*             fee() of the long-lived object (ok: answered, or refused)     *)
+(* When the unspents list has no longer one entry per input (TxSession.tla,  *)
+(* SHAPE) a question about the inputs' value must be refused if some input   *)
+(* has no unspent, and is refused or answered from the entries paired with   *)
+(* the inputs if there are surplus entries.                                  *)
 (* The state carries the transaction from its build through every edit: TLC  *)
 (* applies the logged edits itself and demands that each answer is the one   *)
 (* the CURRENT fields determine (history independence), on the real amounts. *)
@@ -73,15 +78,24 @@ TBuild == /\ l <= Len(Ev) /\ Cur.k = "build" /\ ~built
 \* ---- validate: against the fields TLC tracks (the logged unspents must be those)
 DbOf(e) == [s \in 1..Len(e.db) |-> DbEntry(e.db[s])]
 SrcsKnown(db) == \A i \in 1..Len(tx.ins) : tx.ins[i].src \in DOMAIN db
-CurIn  == L!Total(L!Amts(tx.unspents))
+\* the shape of the object (TxSession.tla) and the entries paired with the inputs
+Shaped  == Len(tx.unspents) = Len(tx.ins)
+Short   == Len(tx.unspents) < Len(tx.ins)
+Paired  == [tx EXCEPT !.unspents = SubSeq(@, 1, Len(tx.ins))]           \* (not Short)
+CurIn  == L!Total(L!Amts(Paired.unspents))
 CurOut == L!Total(L!Amts(tx.outs))
+\* a question about the inputs' value was answered (then: from the paired entries) or refused
+\* (admissible whenever the shape is wrong; the only admissible outcome when an input has no unspent)
+Answered(ok, right) == IF Short THEN ~ok ELSE IF Shaped THEN ok /\ right ELSE ok => right
 TValidate ==
   /\ l <= Len(Ev) /\ Cur.k = "validate" /\ built
   /\ Map(Cur.unsp, Un) = tx.unspents
   /\ LET db == DbOf(Cur) IN
      /\ SrcsKnown(db)
-     /\ Cur.ret = U!AllBacked(tx, db)
-     /\ Cur.ret => Lm!IsLimbs(Cur.fmag) /\ L!FeeReport(tx, CurIn, CurOut, Cur.fsign, Cur.fmag)
+     /\ IF Short THEN ~Cur.ret
+        ELSE /\ Cur.ret => U!AllBacked(Paired, db)
+             /\ Shaped => (Cur.ret = U!AllBacked(tx, db))
+             /\ Cur.ret => Lm!IsLimbs(Cur.fmag) /\ L!FeeReport(Paired, CurIn, CurOut, Cur.fsign, Cur.fmag)
   /\ l' = l + 1 /\ UNCHANGED <<tid, tx, built>>
 
 \* ---- the session: writers
@@ -92,9 +106,9 @@ TSet ==      \* checked setter: a list of the wrong length raises and changes no
      THEN Cur.ok /\ tx' = [tx EXCEPT !.unspents = Map(Cur.un, Un)]
      ELSE ~Cur.ok /\ UNCHANGED tx
   /\ l' = l + 1 /\ UNCHANGED <<tid, built>>
-TAssign ==   \* tx.unspents = list (lists of the right length only)
+TAssign ==   \* tx.unspents = list (of any length)
   /\ l <= Len(Ev) /\ Cur.k = "assign" /\ built
-  /\ WfAmts(L!Amts(Map(Cur.un, Un))) /\ Len(Cur.un) = Len(tx.ins) /\ Cur.ok
+  /\ WfAmts(L!Amts(Map(Cur.un, Un))) /\ Cur.ok
   /\ tx' = [tx EXCEPT !.unspents = Map(Cur.un, Un)]
   /\ l' = l + 1 /\ UNCHANGED <<tid, built>>
 TFromDb ==
@@ -113,13 +127,22 @@ TReplace ==
   /\ Cur.i \in 1..Len(tx.outs)
   /\ tx' = [tx EXCEPT !.outs[Cur.i] = Pay(Cur.out)]
   /\ l' = l + 1 /\ UNCHANGED <<tid, built>>
+TRemoveIn == \* the last input is dropped; the unspents are not told
+  /\ l <= Len(Ev) /\ Cur.k = "remove_in" /\ built /\ Len(tx.ins) > 1
+  /\ tx' = [tx EXCEPT !.ins = SubSeq(@, 1, Len(@) - 1)]
+  /\ l' = l + 1 /\ UNCHANGED <<tid, built>>
+TAppendIn == \* one more input
+  /\ l <= Len(Ev) /\ Cur.k = "append_in" /\ built
+  /\ tx' = [tx EXCEPT !.ins = Append(@, In(Cur.inp))]
+  /\ l' = l + 1 /\ UNCHANGED <<tid, built>>
 \* ---- the session: queries (answers are functions of the current fields)
-TTin  == /\ l <= Len(Ev) /\ Cur.k = "tin" /\ built /\ Cur.v = CurIn
+TTin  == /\ l <= Len(Ev) /\ Cur.k = "tin" /\ built
+         /\ Answered(Cur.ok, Cur.v = CurIn)
          /\ l' = l + 1 /\ UNCHANGED <<tid, tx, built>>
 TTout == /\ l <= Len(Ev) /\ Cur.k = "tout" /\ built /\ Cur.v = CurOut
          /\ l' = l + 1 /\ UNCHANGED <<tid, tx, built>>
 TFee  == /\ l <= Len(Ev) /\ Cur.k = "fee" /\ built
-         /\ Lm!IsLimbs(Cur.fmag) /\ L!FeeReport(tx, CurIn, CurOut, Cur.fsign, Cur.fmag)
+         /\ Answered(Cur.ok, Lm!IsLimbs(Cur.fmag) /\ L!FeeReport(Paired, CurIn, CurOut, Cur.fsign, Cur.fmag))
          /\ l' = l + 1 /\ UNCHANGED <<tid, tx, built>>
 
 \* ---- conv
@@ -150,7 +173,7 @@ TConv ==
 TInit == /\ TLCSet(1, {})
          /\ tid \in 1..Len(Traces) /\ l = 1 /\ tx = NoTx /\ built = FALSE
 TNext == \/ TBuild \/ TValidate \/ TConv
-         \/ TSet \/ TAssign \/ TFromDb \/ TAppend \/ TReplace
+         \/ TSet \/ TAssign \/ TFromDb \/ TAppend \/ TReplace \/ TRemoveIn \/ TAppendIn
          \/ TTin \/ TTout \/ TFee
 TSpec == TInit /\ [][TNext]_tvars
 
